@@ -29,7 +29,7 @@ type C12Case struct {
 var _ = Register("C12", func() interface{} { return new(C12Case) }, func(c interface{}) string { return c12Oracle(c.(*C12Case)) })
 
 var c12Decl = &GenCfg{Depth: 2, Fanout: 2, MaxOpts: 4, MaxGroups: 2, NestGroups: 2, Kinds: append(append([]Kind{}, AllArgKinds...), KBool, KBoolSlice, KBoolPtr, KFuncS),
-	Ns: true, Req: 0, Defaults: true, OptArg: true, Hidden: true, Desc: true, Bases: true, Aliases: true, SubOpt: 100, NonASCII: true, CmdPct: 60, InCode: 8, FieldPool: true}
+	Ns: true, Req: 0, Defaults: true, OptArg: true, Hidden: true, Desc: true, Bases: true, Aliases: true, SubOpt: 100, NonASCII: true, CmdPct: 60, InCode: 8, FieldPool: true, ViaAdd: 6}
 
 var c12Strings = []string{"", " ", " lead", "trail ", "\tlead", "\"quoted\"", "\"half", "half\"", "\"", ";semi", "#hash", "a=b", "=", "[sec]", "\x00", "line\nbreak", "cr\rx", "tab\tx",
 	"é中", "\xff\xfe", "a\\b", "a\\\"b", "'", "k:v", ":", " nbsp", " ls", "x\u0085", "\\n", "true", "0", "; x = y", "value with  two  spaces"}
@@ -95,7 +95,11 @@ func genC12(t *rapid.T) *C12Case {
 		c.G.EachGroup(func(g *Group, _ []*Group) {
 			for i := range g.Options {
 				n++
-				switch rapid.IntRange(0, 9).Draw(t, "iniMark") {
+				mark := rapid.IntRange(0, 9).Draw(t, "iniMark")
+				if g.Options[i].ViaAdd {
+					mark = 9 // (ini-name and no-ini exist as tags only)
+				}
+				switch mark {
 				case 0:
 					g.Options[i].IniName = fmt.Sprintf("%s%d", rapid.SampledFrom([]string{"ini-key", "Key", "the.key", "é", "with space"}).Draw(t, "iniName"), n)
 				case 1:
@@ -177,8 +181,39 @@ func c12Written(o *OptInfo) bool {
 	return true
 }
 
+// c12Shadowed reports an option added with AddOption - it has no field name, so
+// its INI key is its long name or, failing that, its short name - whose key is
+// also a higher-ranking name of another option of the same command (field name
+// or ini-name; for a short name also a long name): the reader then resolves the
+// key to that other option (known finding F-C12-7).
+func c12Shadowed(d *Decl) bool {
+	all := d.AllOpts()
+	for _, o := range all {
+		if !o.ViaAdd {
+			continue
+		}
+		key, byShort := o.NsLong, false
+		if o.Long == "" {
+			key, byShort = o.Short, true
+		}
+		for _, p := range all {
+			if p.Opt == o.Opt || p.Cmd != o.Cmd {
+				continue
+			}
+			if (!p.ViaAdd && p.Field == key) || strings.EqualFold(p.IniName, key) || (byShort && p.NsLong == key) {
+				return true
+			}
+		}
+	}
+	return false
+}
+
 func c12Oracle(c *C12Case) string {
 	st := S("C12")
+	if Known("F-C12-7") && c12Shadowed(c.D) {
+		st.Exclude("known finding F-C12-7: INI key of an AddOption option shadowed by a higher-ranking name of another option")
+		return ""
+	}
 	// -0 and +0 are the same number: an omitted "-0" coming back as 0 is not a loss
 	SignedZerosEqual = true
 	defer func() { SignedZerosEqual = false }()
